@@ -20,6 +20,29 @@
 //	                             to the configured content type, when given
 //	                             the error the component returned.
 //
+//	panic:   a component that panics after k chunks (panic(error),
+//	         panic(string), a runtime error, http.ErrAbortHandler) has failed
+//	         to render. Acceptable outcomes: (a) the panic propagates out of
+//	         ServeHTTP and NOTHING was written to the ResponseWriter (no
+//	         WriteHeader, no Write; through a real server: the client gets no
+//	         response at all), or (b) the error response as above. Never a
+//	         success status, never a document byte. http.ErrAbortHandler must
+//	         propagate (a). A panic raised by net/http itself (invalid
+//	         configured status) is not a component failure and is never
+//	         provoked: configured statuses are valid.
+//	error handlers that are themselves templ.Handlers (the documented error
+//	         page pattern): the response must be that inner handler's own
+//	         status, content type and page - stated here independently of templ.
+//	middleware: when something in front of the handler already populated
+//	         response headers (Content-Type: text/csv, Vary, X-Frame-Options),
+//	         success still carries the configured content type, the error path
+//	         still equals the reference run behind the same middleware.
+//	pool history: every judged request is preceded, on the same goroutine, by
+//	         one other use of templ's shared byte-buffer pool (failing or
+//	         successful ToGoHTML, failing buffered / streamed request, a large
+//	         successful request, direct GetBuffer/ReleaseBuffer); the judged
+//	         request must still equal its pool-free reference.
+//
 // Streaming configurations are run through the same workload and only
 // observed: the evidence counts the failing streaming runs in which document
 // bytes did reach the client, which shows that the monitor sees partial output
@@ -31,6 +54,7 @@ import (
 	"context"
 	"errors"
 	"fmt"
+	"html/template"
 	"io"
 	"log"
 	"net/http"
@@ -53,10 +77,13 @@ type Case struct {
 	EH      string // error handler variant, "" = unset
 	Stream  bool
 	Comp    string // plain | nested | genstyle
-	Outcome string // ok | err | cancel
+	Outcome string // ok | err | cancel | panic-error | panic-string | panic-runtime | panic-abort
 	Sizes   []int  // chunk sizes; the component writes all of them, then succeeds or fails
 	Via     string // recorder | server
 	ID      int    // request id carried by every chunk marker
+	Pre     string `json:",omitempty"` // "mw": a middleware pre-populated response headers
+	Hist    string `json:",omitempty"` // pool history run on the same goroutine just before the request
+	leak    string // pool-leak verdicts: the history that wrote the leaked bytes
 }
 
 const (
@@ -68,13 +95,30 @@ const (
 var (
 	statuses = []int{0, 200, 201, 404, 500}
 	cts      = []string{"", customCT}
-	ehs      = []string{"", "status+body", "body", "nothing", "own-ct", "status-only", "header+status+body"}
+	ehs      = []string{"", "status+body", "body", "nothing", "own-ct", "status-only", "header+status+body", "templ-page", "templ-page-ct", "templ-page-stream"}
 	comps    = []string{"plain", "nested", "genstyle"}
-	outcomes = []string{"ok", "err", "cancel"}
-	profiles = []string{"tiny", "small", "page", "big", "mixed"}
+	outcomes = []string{"ok", "err", "cancel", "panic-error", "panic-string", "panic-runtime", "panic-abort"}
+	// pool histories ("" = none)
+	histories = []string{"", "togohtml-fail", "togohtml-ok", "buffered-fail", "streamed-fail", "large-ok", "direct-pool"}
+	profiles  = []string{"tiny", "small", "page", "big", "mixed"}
 )
 
 var errFail = errors.New("verif: component failed")
+
+func isPanic(outcome string) bool { return strings.HasPrefix(outcome, "panic") }
+
+// innerPages: error handlers that are templ.Handlers rendering an error page
+// (status, content type of the inner handler). The reference states their
+// response without using templ.
+var innerPages = map[string]struct {
+	status int
+	ct     string
+	stream bool
+}{
+	"templ-page":        {http.StatusInternalServerError, defaultCT, false},
+	"templ-page-ct":     {http.StatusServiceUnavailable, "text/vnd.verif-error; charset=utf-8", false},
+	"templ-page-stream": {http.StatusBadGateway, defaultCT, true},
+}
 
 // isDocByte: the document alphabet ('#' and A-Z). Chunks consist of these bytes only; the
 // error paths (default message, the harness's error handlers, error texts)
@@ -159,6 +203,15 @@ func finish(ctx context.Context, cs Case) error {
 			cancel()
 		}
 		return ctx.Err() // context.Canceled
+	case "panic-error":
+		panic(errFail)
+	case "panic-string":
+		panic("verif: component blew up")
+	case "panic-runtime":
+		var m map[string]int
+		m["x"] = len(cs.Sizes) // assignment to entry in nil map
+	case "panic-abort":
+		panic(http.ErrAbortHandler)
 	}
 	return nil
 }
@@ -238,11 +291,13 @@ func errorHandler(name string) func(r *http.Request, err error) http.Handler {
 	// The body must not echo err.Error(): the wording of the error the handler
 	// passes on is templ's business (it may wrap the cause); that it wraps the
 	// cause is checked separately with errors.Is on the recorded error.
-	return errorHandlerText(name, func(err error) string { return "render failed" })
+	return errorHandlerText(name, func(err error) string { return "render failed" }, false)
 }
 
 // errorHandlerText: text(err) is what the variant echoes into its body.
-func errorHandlerText(name string, text func(error) string) func(r *http.Request, err error) http.Handler {
+// With ref set, the templ-page variants are replaced by their templ-free
+// specification (the reference must not contain the code under test).
+func errorHandlerText(name string, text func(error) string, ref bool) func(r *http.Request, err error) http.Handler {
 	if name == "" {
 		return nil
 	}
@@ -250,6 +305,27 @@ func errorHandlerText(name string, text func(error) string) func(r *http.Request
 		if s, ok := r.Context().Value(keySlot).(*slot); ok && s != nil {
 			s.ehCalls++
 			s.ehErr = err
+		}
+		if in, ok := innerPages[name]; ok {
+			page := "eh: templ error page: " + text(err)
+			if ref {
+				return http.HandlerFunc(func(w http.ResponseWriter, _ *http.Request) {
+					w.Header().Set("Content-Type", in.ct)
+					w.WriteHeader(in.status)
+					_, _ = io.WriteString(w, page)
+				})
+			}
+			opts := []func(*templ.ComponentHandler){templ.WithStatus(in.status)}
+			if in.ct != defaultCT {
+				opts = append(opts, templ.WithContentType(in.ct))
+			}
+			if in.stream {
+				opts = append(opts, templ.WithStreaming())
+			}
+			return templ.Handler(templ.ComponentFunc(func(_ context.Context, w io.Writer) error {
+				_, e := io.WriteString(w, page)
+				return e
+			}), opts...)
 		}
 		return http.HandlerFunc(func(w http.ResponseWriter, _ *http.Request) {
 			switch name {
@@ -309,7 +385,7 @@ func referenceFor(cs Case) http.Handler {
 			_, _ = w.Write(document(cs))
 			return
 		}
-		if eh := errorHandler(cs.EH); eh != nil {
+		if eh := errorHandlerText(cs.EH, func(error) string { return "render failed" }, true); eh != nil {
 			w.Header().Set("Content-Type", ct)
 			eh(r, expectedErr(cs)).ServeHTTP(w, r)
 			return
@@ -321,9 +397,16 @@ func referenceFor(cs Case) http.Handler {
 	})
 }
 
-// withRequestState gives every request a cancel function and a side-channel slot.
-func withRequestState(h http.Handler, s *slot) http.Handler {
+// withRequestState gives every request a cancel function and a side-channel
+// slot; pre == "mw" additionally plays a middleware that populated response
+// headers before the handler runs (none of them is touched by http.Error).
+func withRequestState(h http.Handler, s *slot, pre string) http.Handler {
 	return http.HandlerFunc(func(w http.ResponseWriter, r *http.Request) {
+		if pre == "mw" {
+			w.Header().Set("Content-Type", "text/csv")
+			w.Header().Set("Vary", "Accept")
+			w.Header().Set("X-Frame-Options", "DENY")
+		}
 		ctx, cancel := context.WithCancel(r.Context())
 		defer cancel()
 		ctx = context.WithValue(ctx, keyCancel, cancel)
@@ -338,18 +421,49 @@ type observation struct {
 	Header http.Header
 	Body   []byte
 	Err    string
+	// recorder only: a panic left ServeHTTP; Touched = WriteHeader or Write
+	// had been called on the ResponseWriter before it did.
+	Panicked bool
+	PanicVal any
+	Touched  bool
+}
+
+// trackWriter notes whether the handler touched the wire.
+type trackWriter struct {
+	http.ResponseWriter
+	touched bool
+}
+
+func (t *trackWriter) WriteHeader(c int) { t.touched = true; t.ResponseWriter.WriteHeader(c) }
+func (t *trackWriter) Write(p []byte) (int, error) {
+	t.touched = true
+	return t.ResponseWriter.Write(p)
+}
+func (t *trackWriter) Flush() {
+	if f, ok := t.ResponseWriter.(http.Flusher); ok {
+		f.Flush()
+	}
 }
 
 // comparedHeaders: headers under the handler's / error handler's control.
 // (Date, Content-Length, Connection etc. belong to net/http.)
-var comparedHeaders = []string{"Content-Type", "X-Content-Type-Options", "X-Verif-Err", "Cache-Control", "Location"}
+var comparedHeaders = []string{"Content-Type", "X-Content-Type-Options", "X-Verif-Err", "Cache-Control", "Location", "Vary", "X-Frame-Options"}
 
-func observeRecorder(h http.Handler) observation {
+func observeRecorder(h http.Handler) (o observation) {
 	rec := httptest.NewRecorder()
+	tw := &trackWriter{ResponseWriter: rec}
 	req := httptest.NewRequest(http.MethodGet, "/", nil)
-	h.ServeHTTP(rec, req)
+	func() {
+		defer func() {
+			if p := recover(); p != nil {
+				o.Panicked, o.PanicVal = true, p
+			}
+		}()
+		h.ServeHTTP(tw, req)
+	}()
 	res := rec.Result()
-	return observation{Status: res.StatusCode, Header: res.Header, Body: rec.Body.Bytes()}
+	o.Status, o.Header, o.Body, o.Touched = res.StatusCode, res.Header, rec.Body.Bytes(), tw.touched
+	return o
 }
 
 // servers: one real net/http server; cases are registered under /t/<n> (handler
@@ -407,10 +521,12 @@ func (s *servers) observe(h http.Handler) observation {
 
 // verdict of one case. category "" = held (or only observed, for streaming).
 type verdict struct {
-	Category  string // canonical class of the deviation
-	Detail    string
-	Partial   bool // document bytes were seen in a failing response
-	SameAsRef bool // streaming runs only: response equals the buffered reference
+	Category   string // canonical class of the deviation
+	Detail     string
+	Partial    bool   // document bytes were seen in a failing response
+	SameAsRef  bool   // streaming runs only: response equals the buffered reference
+	LeakFrom   string // pool-leak: origin of the leaked bytes
+	Propagated bool   // panic outcomes: the panic left ServeHTTP / no response reached the client
 }
 
 func short(b []byte) string {
@@ -429,11 +545,62 @@ func judge(cs Case, got, want observation, sl *slot) verdict {
 			got.Header.Get("Content-Type") == want.Header.Get("Content-Type")
 		return v
 	}
+	if isPanic(cs.Outcome) {
+		abort := cs.Outcome == "panic-abort"
+		switch {
+		case got.Panicked: // recorder: the panic left ServeHTTP
+			if got.Touched {
+				v.Category = "panic-after-output"
+				v.Detail = fmt.Sprintf("the component panicked after %d chunks; the panic left ServeHTTP but status %d / %d body bytes had already been written: %s", len(cs.Sizes), got.Status, len(got.Body), short(got.Body))
+				return v
+			}
+			if abort && got.PanicVal != http.ErrAbortHandler {
+				v.Category = "abort-not-propagated"
+				v.Detail = fmt.Sprintf("panic(http.ErrAbortHandler) left ServeHTTP as %v", got.PanicVal)
+				return v
+			}
+			v.Propagated = true
+			return v // outcome (a)
+		case got.Err != "" && got.Status == 0: // real server: no response at all
+			v.Propagated = true
+			return v // outcome (a)
+		case abort:
+			v.Category = "abort-not-propagated"
+			v.Detail = fmt.Sprintf("the component panicked with http.ErrAbortHandler but a response was produced (status %d, body %s)", got.Status, short(got.Body))
+			return v
+		}
+		// a response was produced: it must be the error response, outcome (b)
+		bad := ""
+		switch n := countDocBytes(got.Body); {
+		case n > 0:
+			bad = fmt.Sprintf("it carries %d document bytes", n)
+		case cs.EH != "" && sl != nil && sl.ehCalls != 1:
+			bad = fmt.Sprintf("the configured error handler was called %d times", sl.ehCalls)
+		case got.Status != want.Status:
+			bad = fmt.Sprintf("the error response has status %d", want.Status)
+		case got.Header.Get("Content-Type") != want.Header.Get("Content-Type"):
+			bad = fmt.Sprintf("the error response has Content-Type %q", want.Header.Get("Content-Type"))
+		case !bytes.Equal(got.Body, want.Body):
+			bad = "the error response has body " + short(want.Body)
+		}
+		if bad != "" {
+			v.Category = "panic-not-answered-all-or-nothing"
+			v.Detail = fmt.Sprintf("the component panicked after %d chunks; ServeHTTP returned normally with status %d, Content-Type %q, body %s - neither nothing nor the error response: %s",
+				len(cs.Sizes), got.Status, got.Header.Get("Content-Type"), short(got.Body), bad)
+			return v
+		}
+		sl = nil // which error value the handler wraps a panic in is its own business
+	}
 	if got.Err != "" {
 		return verdict{Category: "transport", Detail: "client error: " + got.Err}
 	}
 	if fail {
-		if n := countDocBytes(got.Body); n > 0 {
+		if n := countDocBytes(got.Body); n > 0 && bytes.Contains(got.Body, []byte("#STALE")) {
+			v.Category = "pool-leak"
+			v.LeakFrom = leakOrigin(got.Body)
+			v.Detail = fmt.Sprintf("the error response (status %d) carries bytes that an earlier user of templ's buffer pool (%s) wrote: %s", got.Status, v.LeakFrom, short(got.Body))
+			return v
+		} else if n > 0 {
 			v.Category = "partial-document"
 			v.Detail = fmt.Sprintf("rendering failed after %d chunks but the response (status %d) carries %d document bytes: %s", len(cs.Sizes), got.Status, n, short(got.Body))
 			return v
@@ -471,6 +638,13 @@ func judge(cs Case, got, want observation, sl *slot) verdict {
 			return v
 		}
 	}
+	if !bytes.Equal(got.Body, want.Body) && bytes.Contains(got.Body, []byte("#STALE")) {
+		// bytes written by the pool history (another use of the shared pool)
+		v.Category = "pool-leak"
+		v.LeakFrom = leakOrigin(got.Body)
+		v.Detail = fmt.Sprintf("the response (status %d) carries bytes that an earlier user of templ's buffer pool (%s) wrote: body %s, want %s", got.Status, v.LeakFrom, short(got.Body), short(want.Body))
+		return v
+	}
 	if !bytes.Equal(got.Body, want.Body) {
 		v.Category = kind + "-body"
 		v.Detail = fmt.Sprintf("body %s, want %s", short(got.Body), short(want.Body))
@@ -500,14 +674,89 @@ func runCase(cs Case, srv *servers) verdict {
 	}
 	sl := &slot{}
 	var got, want observation
+	runHistory(cs)
 	if cs.Via == "server" && srv != nil {
-		got = srv.observe(withRequestState(handlerFor(cs), sl))
-		want = srv.observe(withRequestState(referenceFor(cs), &slot{}))
+		got = srv.observe(withRequestState(handlerFor(cs), sl, cs.Pre))
+		want = srv.observe(withRequestState(referenceFor(cs), &slot{}, cs.Pre))
 	} else {
-		got = observeRecorder(withRequestState(handlerFor(cs), sl))
-		want = observeRecorder(withRequestState(referenceFor(cs), &slot{}))
+		got = observeRecorder(withRequestState(handlerFor(cs), sl, cs.Pre))
+		want = observeRecorder(withRequestState(referenceFor(cs), &slot{}, cs.Pre))
 	}
 	return judge(cs, got, want, sl)
+}
+
+// leakOrigin is set by judge for pool-leak verdicts: which history wrote the
+// leaked bytes (parsed from the marker).
+func leakOrigin(body []byte) string {
+	i := bytes.Index(body, []byte("#STALE#"))
+	if i < 0 {
+		return "?"
+	}
+	rest := body[i+7:]
+	if j := bytes.IndexByte(rest, '#'); j > 0 {
+		for _, h := range histories {
+			if strings.ToUpper(strings.ReplaceAll(h, "-", "")) == string(rest[:j]) {
+				return h
+			}
+		}
+	}
+	return "?"
+}
+
+func staleOrigin(cs Case) string {
+	if cs.leak != "" {
+		return cs.leak
+	}
+	return cs.Hist
+}
+
+// runHistory uses templ's shared byte-buffer pool once, on the calling
+// goroutine, right before the judged request (which then most likely draws the
+// very buffer this use gave back). Everything written here is document
+// alphabet ("#STALE…"), so a leak shows both as a wrong body and as document
+// bytes in an error response.
+func runHistory(cs Case) {
+	if cs.Hist == "" {
+		return
+	}
+	stale := func(fail bool, sizes ...int) templ.Component {
+		return templ.ComponentFunc(func(_ context.Context, w io.Writer) error {
+			for i, n := range sizes {
+				// the marker names its writer, so a leak is attributed to the pool
+				// user that really wrote the bytes, however long they lingered
+				m := "#STALE#" + strings.ToUpper(strings.ReplaceAll(cs.Hist, "-", "")) + "#" + upper(cs.ID) + "Z" + upper(i) + "#"
+				if n > len(m) {
+					m += strings.Repeat("Q", n-len(m))
+				}
+				if _, err := io.WriteString(w, m); err != nil {
+					return err
+				}
+			}
+			if fail {
+				return errFail
+			}
+			return nil
+		})
+	}
+	a, b := 1+cs.ID%97, 100+(cs.ID*37)%5000
+	switch cs.Hist {
+	case "togohtml-fail":
+		var s template.HTML
+		s, _ = templ.ToGoHTML(context.Background(), stale(true, a, b))
+		_ = s
+	case "togohtml-ok":
+		_, _ = templ.ToGoHTML(context.Background(), stale(false, a, b))
+	case "buffered-fail":
+		observeRecorder(templ.Handler(stale(true, a, b)))
+	case "streamed-fail":
+		observeRecorder(templ.Handler(stale(true, a, b), templ.WithStreaming()))
+	case "large-ok":
+		observeRecorder(templ.Handler(stale(false, a, 70*1024+b)))
+	case "direct-pool":
+		buf := templ.GetBuffer()
+		_ = stale(false, a, b).Render(context.Background(), buf)
+		templ.ReleaseBuffer(buf)
+	}
 }
 
 func key(cs Case, cat string) string {
@@ -523,7 +772,18 @@ func key(cs Case, cat string) string {
 	if eh == "" {
 		eh = "unset"
 	}
-	return fmt.Sprintf("%s: buffered status=%s ct=%s eh=%s comp=%s outcome=%s chunks=%v via=%s", cat, st, ct, eh, cs.Comp, cs.Outcome, cs.Sizes, cs.Via)
+	if cat == "pool-leak" {
+		// the root cause is the earlier pool user, not the judged configuration
+		return "pool-leak: bytes written through the shared buffer pool by an earlier " + staleOrigin(cs) + " reached a buffered response"
+	}
+	k := fmt.Sprintf("%s: buffered status=%s ct=%s eh=%s comp=%s outcome=%s chunks=%v via=%s", cat, st, ct, eh, cs.Comp, cs.Outcome, cs.Sizes, cs.Via)
+	if cs.Pre != "" {
+		k += " pre=" + cs.Pre
+	}
+	if cs.Hist != "" {
+		k += " after=" + cs.Hist
+	}
+	return k
 }
 
 // reduce moves every dimension of a failing case to its simplest value as long
@@ -539,6 +799,13 @@ func reduce(cs Case, cat string, srv *servers) Case {
 		}
 	}
 	try(func(t *Case) { t.Via = "recorder" })
+	try(func(t *Case) { t.Pre = "" })
+	if cat != "pool-leak" { // a pool leak keeps the history that wrote the leaked bytes
+		try(func(t *Case) { t.Hist = "" })
+	}
+	if isPanic(cs.Outcome) {
+		try(func(t *Case) { t.Outcome = "panic-string" })
+	}
 	try(func(t *Case) {
 		t.Comp = "plain"
 		if t.Outcome == "nested" { // outcome of generated templates only
@@ -553,6 +820,9 @@ func reduce(cs Case, cat string, srv *servers) Case {
 	try(func(t *Case) { t.EH = "" })
 	if cs.EH != "" {
 		try(func(t *Case) { t.EH = "body" })
+	}
+	if _, inner := innerPages[cs.EH]; inner {
+		try(func(t *Case) { t.EH = "templ-page" })
 	}
 	if cs.Outcome == "cancel" {
 		try(func(t *Case) { t.Outcome = "err" })
@@ -602,9 +872,11 @@ func sizesFor(rnd interface{ Intn(int) int }, profile string, k int) []int {
 // Run is the C11 check.
 func Run(c *core.Ctx) {
 	c.Level = "fault_enumeration"
-	c.Rule = "case = (handler configuration: status{unset,200,201,404,500} x content type{default,custom} x error handler{unset + 6 variants} x streaming{off,on}) x component{plain, nested child, generated-code shape with runtime buffer; plus two really generated templates (templ generate + go build) in a driver process} x outcome{ok, error, error after the request context was cancelled; generated: also error in a nested template} x failure point k=0..8 chunks (every k for every configuration/component/outcome) x chunk-size profile (1 B .. 200 KB); non-trivial = buffered configuration, rendering fails after >= 1 chunk (generated templates: after any output, static text precedes every failure point) was written; distinct by construction (each enumerated tuple once per size draw)"
+	c.Rule = "case = (handler configuration: status{unset,200,201,404,500} x content type{default,custom} x error handler{unset + 6 plain variants + 3 variants that are templ.Handlers rendering an error page} x streaming{off,on}) x component{plain, nested child, generated-code shape with runtime buffer; plus two really generated templates (templ generate + go build) in a driver process} x outcome{ok, error, error after the request context was cancelled, panic(error), panic(string), runtime-error panic, panic(http.ErrAbortHandler); generated: also error in a nested template and a runtime-error panic} x {fresh ResponseWriter, headers pre-populated by a middleware} x pool history{none, failing/successful ToGoHTML, failing buffered/streamed request, >64 KB successful request, direct GetBuffer/ReleaseBuffer} run on the same goroutine just before x failure point k=0..8 chunks (every k for every configuration/component/outcome) x chunk-size profile (1 B .. 200 KB); non-trivial = buffered configuration, rendering fails after >= 1 chunk (generated templates: after any output, static text precedes every failure point) was written; distinct by construction (each enumerated tuple once per size draw)"
 	c.Assume("net/http (ResponseRecorder, Server, Client) reports status, headers and body faithfully")
-	c.Assume("the reference for an error handler's response is that same handler run alone on a fresh ResponseWriter with the configured Content-Type preset")
+	c.Assume("the reference for a plain error handler's response is that same handler run alone on a ResponseWriter with the configured Content-Type preset; for error handlers that are templ.Handlers it is the inner handler's status, content type and page stated without templ")
+	c.Assume("a panic raised by the component counts as a rendering failure; a panic that leaves ServeHTTP with nothing written is the 'nothing' outcome (net/http aborts the connection)")
+	c.Assume("sync.Pool hands a buffer released on a goroutine back to the next Get on that goroutine often enough (no guarantee per case; the histories are repeated thousands of times)")
 	srv := newServers()
 	defer srv.close()
 
@@ -621,6 +893,7 @@ func Run(c *core.Ctx) {
 		c.Eval(1)
 		c.NontrivialN(2)
 		if v := runCase(cs, srv); v.Category != "" {
+			cs.leak = v.LeakFrom
 			c.Violate(key(cs, v.Category), v.Detail, cs)
 		}
 		return
@@ -646,6 +919,8 @@ func Run(c *core.Ctx) {
 	var nCases, nServer, nNontrivial, nStreamFail, nStreamPartial, nStreamOK, nStreamOKSame, nBufFail, nBufOK atomic.Int64
 	var maxBody atomic.Int64
 	kSeen := make([]atomic.Int64, maxK+1)
+	histSeen := make([]atomic.Int64, len(histories))
+	var nPre, nPanic, nPanicPropagated, nPanicErrorResponse atomic.Int64
 	var vioMu sync.Mutex
 	type vio struct {
 		cs Case
@@ -667,11 +942,28 @@ func Run(c *core.Ctx) {
 				for _, comp := range comps {
 					for _, out := range outcomes {
 						for k := 0; k <= maxK; k++ {
-							for d := 0; d < draws; d++ {
+							nd := draws
+							if isPanic(out) {
+								nd = (draws + 1) / 2
+							}
+							for d := 0; d < nd; d++ {
 								n++
 								prof := profiles[(n+ci)%len(profiles)]
 								cs := Case{Status: cf.status, CT: cf.ct, EH: cf.eh, Stream: cf.stream, Comp: comp, Outcome: out,
 									Sizes: sizesFor(rnd, prof, k), Via: "recorder", ID: ci*100000 + n}
+								// every (configuration, component, outcome) meets the middleware
+								// with and without, and walks through all pool histories
+								if (d+k)%2 == 1 {
+									cs.Pre = "mw"
+								}
+								cs.Hist = histories[(n+ci)%len(histories)]
+								histSeen[(n+ci)%len(histories)].Add(1)
+								if cs.Pre != "" {
+									nPre.Add(1)
+								}
+								if isPanic(out) {
+									nPanic.Add(1)
+								}
 								// a slice of every configuration also goes through a real server:
 								// k=0 and one k>=1 per (component, outcome)
 								if d == 0 && (k == 0 || k == 1+(ci+n)%maxK) {
@@ -680,6 +972,13 @@ func Run(c *core.Ctx) {
 								}
 								v := runCase(cs, srv)
 								nCases.Add(1)
+								if isPanic(out) && !cs.Stream && v.Category == "" {
+									if v.Propagated {
+										nPanicPropagated.Add(1)
+									} else {
+										nPanicErrorResponse.Add(1)
+									}
+								}
 								kSeen[k].Add(1)
 								tot := 0
 								for _, s := range cs.Sizes {
@@ -753,7 +1052,10 @@ func Run(c *core.Ctx) {
 		gdraws := c.Pick(1, 3)
 		n := 0
 		for ci, cf := range configs {
-			for _, out := range []string{"ok", "err", "cancel", "nested"} {
+			if _, inner := innerPages[cf.eh]; inner {
+				continue // the driver hosts the plain error handler variants only
+			}
+			for _, out := range []string{"ok", "err", "cancel", "nested", "panic"} {
 				for k := 0; k <= maxK; k++ {
 					for gi, comp := range []string{"gen-chunks", "gen-wrapped"} {
 						if c.Quick() && (ci+k)%2 != gi {
@@ -817,15 +1119,22 @@ func Run(c *core.Ctx) {
 		// at most a few reductions per category and configuration: equal root
 		// causes collapse to equal keys
 		sig := x.v.Category + "/" + x.cs.EH + "/" + x.cs.Outcome
+		if x.v.Category == "pool-leak" {
+			sig = "pool-leak/" + x.v.LeakFrom
+		}
 		if seenCat[sig] >= 3 {
 			continue
 		}
 		seenCat[sig]++
+		if x.v.Category == "pool-leak" && x.v.LeakFrom != "?" {
+			x.cs.Hist = x.v.LeakFrom // replay runs the real origin right before the request
+		}
 		r := reduce(x.cs, x.v.Category, srv)
 		rv := runCase(r, srv)
 		if rv.Category != x.v.Category {
 			r, rv = x.cs, x.v
 		}
+		r.leak = rv.LeakFrom
 		c.Violate(key(r, rv.Category), "buffered handler is not all-or-nothing: "+rv.Detail, r)
 	}
 
@@ -845,6 +1154,18 @@ func Run(c *core.Ctx) {
 		ks[strconv.Itoa(k)] = kSeen[k].Load()
 	}
 	c.Set("cases_per_failure_point_k", ks)
+	hs := map[string]int64{}
+	for i, h := range histories {
+		if h == "" {
+			h = "none"
+		}
+		hs[h] = histSeen[i].Load()
+	}
+	c.Set("cases_per_pool_history", hs)
+	c.Set("cases_behind_header_setting_middleware", nPre.Load())
+	c.Set("panic_cases", nPanic.Load())
+	c.Set("buffered_panic_cases_propagated_with_nothing_written", nPanicPropagated.Load())
+	c.Set("buffered_panic_cases_answered_with_error_response", nPanicErrorResponse.Load())
 	c.Set("exhaustive", false)
 	c.Set("fault_dimension", "for every (configuration, component, outcome) every failure point k=0..8 was run")
 	if nStreamPartial.Load() == 0 {
